@@ -1,14 +1,14 @@
-\* the literal form: every file set is an INITIAL state, 16 shards = 16 single-worker TLC processes (Fanout = FALSE); all requests; small bound, cross-checks the fanned-out enumeration.
+\* C08 quick, target-TXID / latest requests (+ T in {1,2}): TXIDs 1..4, <= 3 files, one file timestamp.
 \* The runner rewrites `Part = 0` for every shard 0..Parts-1 (one TLC process each; Fanout: several workers per process).
 SPECIFICATION Spec
 CONSTANTS
-  N = 3
+  N = 4
   Levels = {0, 1, 2, 9}
   MaxFiles = 3
-  MaxTs = 2
+  MaxTs = 1
   Part = 0
-  Parts = 16
-  Fanout = FALSE
+  Parts = 1
+  Fanout = TRUE
   TsOnly = FALSE
 INVARIANTS Sound CompleteTx CompleteLatest GapReported FurthestLatest TsExcluded TsFurthest TsMonotone ErrKinds
 CHECK_DEADLOCK FALSE
